@@ -116,8 +116,6 @@ impl Run {
         // long numbers are canonicalised on both sides
         if lang != "en" && contains(e, &|n| matches!(n, Node::ErrorKind(_)) || array_has_error(n, false)) { return; }
         if contains(e, &|n| matches!(n, Node::ParseErrorKind { .. })) { return; }
-        // "#N/IMPL" (F01) lexes to debris the model does not spell
-        if contains(e, &|n| matches!(n, Node::ErrorKind(ironcalc_base::expressions::token::Error::NIMPL)) || array_has_error(n, true)) { return; }
         // an identifier leaf that is the language's boolean literal is lexed as a Boolean token: the model
         // prints identifiers as identifier tokens (oracle class identifier_is_name_in_target_language)
         let is_bool = |name: &str| name.to_uppercase() == g.booleans.r#true.to_uppercase() || name.to_uppercase() == g.booleans.r#false.to_uppercase();
@@ -217,7 +215,7 @@ fn mentions_locale_dependent(text: &str) -> Option<&'static str> {
 fn implicit_conversion(text: &str) -> bool { text.contains('"') || text.contains('&') }
 
 #[derive(Clone, Debug)]
-enum HOp { Lang(usize), Loc(usize), Rename(u32, String), NewSheet, DeleteSheet(u32), MoveSheet(u32, u32), InsertRow(u32, i32), Input(u32, i32, i32, String) }
+enum HOp { Lang(usize), Loc(usize), Rename(u32, String), RenameName(u32), NewSheet, DeleteSheet(u32), MoveSheet(u32, u32), InsertRow(u32, i32), Input(u32, i32, i32, String) }
 
 fn build_book(rng: &mut Rng, k: u64) -> (UserModel<'static>, Vec<String>) {
     let mut um = UserModel::new_empty("book", "en", "UTC", "en").unwrap();
@@ -255,6 +253,11 @@ fn apply(um: &mut UserModel, op: &HOp) -> Result<(), String> {
         HOp::Lang(l) => um.set_language(LANGS[*l]),
         HOp::Loc(l) => um.set_locale(LOCALES[*l]),
         HOp::Rename(s, n) => um.rename_sheet(*s, n),
+        // rename the first global cell / range name, passing the formula as the model shows it (what a UI does)
+        HOp::RenameName(k) => {
+            let (name, scope, formula) = um.get_defined_name_list().into_iter().find(|(_, s, f)| s.is_none() && !f.to_uppercase().contains("LAMBDA")).ok_or("no name")?;
+            um.update_defined_name(&name, scope, &format!("Nm{k}"), scope, &formula)
+        }
         HOp::NewSheet => um.new_sheet(),
         HOp::DeleteSheet(s) => um.delete_sheet(*s),
         HOp::MoveSheet(a, b2) => um.move_sheet(*a, *b2),
@@ -276,7 +279,8 @@ impl Run {
         let mut non_en = false;
         for _ in 0..len {
             let ns = um.get_model().workbook.worksheets.len() as u32;
-            let op = match rng.below(12) {
+            let op = match rng.below(14) {
+                12..=13 => HOp::RenameName(rng.below(1000) as u32),
                 0..=2 => HOp::Lang(rng.below(5) as usize),
                 3..=5 => HOp::Loc(rng.below(6) as usize),
                 6..=7 => HOp::Rename(rng.below(ns as u64) as u32, rng.pick(&["Data", "Datos", "Other Sheet", "Blatt.1", "S4", "Sheet1"]).to_string()),
@@ -366,6 +370,8 @@ impl Run {
                             // locale, whose parser stops silently at the first character it cannot lex ("8.34.." is 8 in a comma locale)
                             .map(|c| if c == "unparsable_input" { "unparsable_formula_reparsed_in_active_locale".to_string() } else { c });
                         let class = if matches!(op, HOp::Rename(..)) && non_en { "rename_sheet_reparses_in_active_language".to_string() }
+                            // the rename loop of update_defined_name still parses the stored formulas with the active locale / language
+                            else if matches!(op, HOp::RenameName(..)) && non_en { "rename_name_reparses_in_active_language".to_string() }
                             else if let (true, Some(c)) = (matches!(op, HOp::InsertRow(..)) && non_en, root) { c }
                             else { "structural_op_depends_on_language".to_string() };
                         self.or.fail(&class, replay, format!("{op:?} under {}/{}: stored texts differ from the English run: {d:?}", um.get_model().get_language(), um.get_model().get_locale()));
@@ -390,6 +396,23 @@ fn probe_rename(args: &[String]) {
         let _ = m.set_locale(&args[1]);
         let r = m.rename_sheet_by_index(1, "Other");
         println!("   rename_sheet_by_index(1, Other) under {}/{} = {r:?}: stored {:?} value {} shown {:?}", args[0], args[1], stored(&m, 0, 3, 3), value(&m, 0, 3, 3), m.get_localized_cell_content(0, 3, 3));
+    }
+}
+
+fn probe_rename_name(args: &[String]) {
+    // rename_name <lang> <locale> <formula typed in English>...: type, define G, switch, rename G to H, look at the stored text
+    let lang: &'static str = LANGS.iter().copied().find(|l| *l == args[0]).unwrap();
+    for f in &args[2..] {
+        let mut m = new_model("en", "en");
+        let _ = m.new_defined_name("G", None, "Sheet1!$A$1");
+        let _ = m.set_user_input(0, 3, 3, f.clone());
+        m.evaluate();
+        println!("{f:?}: stored {:?} value {}", stored(&m, 0, 3, 3), value(&m, 0, 3, 3));
+        let _ = m.set_language(lang);
+        let _ = m.set_locale(&args[1]);
+        let r = m.update_defined_name("G", None, "H", None, "Sheet1!$A$1");
+        m.evaluate();
+        println!("   update_defined_name(G -> H) under {}/{} = {r:?}: stored {:?} value {}", args[0], args[1], stored(&m, 0, 3, 3), value(&m, 0, 3, 3));
     }
 }
 
@@ -433,6 +456,7 @@ fn main() {
     if raw.len() >= 2 && raw[1] == "probe" { probe(&raw[2..]); return; }
     if raw.len() >= 2 && raw[1] == "rename" { probe_rename(&raw[2..]); return; }
     if raw.len() >= 2 && raw[1] == "insert" { probe_insert(&raw[2..]); return; }
+    if raw.len() >= 2 && raw[1] == "rename_name" { probe_rename_name(&raw[2..]); return; }
     let a = Args::parse();
     let mut run = Run { cs: Cases::new(&a.out, "c10"), or: Oracle::default(), fns: Fns::new(), seen: HashSet::new(), dist: BTreeMap::new(), samples: vec![],
         distinct: HashSet::new(), locale_dependent_seen: BTreeSet::new() };
